@@ -212,6 +212,11 @@ def build_case(c):
                             break
         paths = [p for p in paths if tuple(map(tuple, p)) in chosen]
     record = make_record10(tree, env, total, rng, c["corrupt"])
+    if c.get("truncate"):
+        # a record that ends early (a short last record, a truncated variable-length record): every counter stays inside
+        keep_min = max([st + sz for _cid, _p, st, sz in counters] + [1])
+        if total > keep_min:
+            record = record[:rng.randint(keep_min, total - 1)]
     return tree, env, counters, paths, record
 
 
@@ -220,6 +225,9 @@ def inputs(ctx):
     n = 220 if ctx.tier == "quick" else 2000
     for i in range(n):
         yield "clean", dict(seed=rng.randrange(1 << 30), corrupt=i % 4, neg=False, opts=dict(max_kids=4) if i % 3 else {})
+    for i in range(120 if ctx.tier == "quick" else 1200):
+        yield "truncated", dict(seed=rng.randrange(1 << 30), corrupt=i % 2, neg=False, truncate=True,
+                                opts=dict(max_kids=4) if i % 3 else {})
     m = 25 if ctx.tier == "quick" else 200
     for i in range(m):
         yield "odo-in-table", dict(seed=rng.randrange(1 << 30), corrupt=i % 2, neg=False, opts=dict(odo_in_table=True, allow_redef=False))
@@ -249,7 +257,8 @@ def observe(ctx, c):
     head = [tree_sx(tree), record, [[k, v] for k, v in sorted(env.items())], [[cid, p] for cid, p, _, _ in counters], atoms_sx(tree),
             schema_obs, top_obs]
     if extras is None:
-        return head + [[[p, [1, schema_obs[1] if schema_obs[0] == 1 else top_obs[1]]] for p in paths], [[], top_obs], []]
+        return head + [[[p, [1, schema_obs[1] if schema_obs[0] == 1 else top_obs[1]]] for p in paths], [[], top_obs], [],
+                       total_extent(tree, env) - len(record)]
     from stingray.schema_instance import BytesInstance
     from stingray.workbook import Sheet, Row
     names, unp, schema = extras["names"], extras["unpacker"], extras["schema"]
@@ -336,7 +345,11 @@ def observe(ctx, c):
             nav = navs[tp].index(-1)
             return [0, nav.location.start, nav.location.end]
         negs = [[p, guarded(lambda: neg(p))] for p in tables]
-    return head + [path_obs, [tops, rowvals], negs]
+    return head + [path_obs, [tops, rowvals], negs, total_extent(tree, env) - len(record)]
+
+
+def total_extent(tree, env):
+    return layout(tree, env)[0]
 
 
 def describe(c):
